@@ -19,7 +19,7 @@ pub const WARM_UP: &[&str] = &[
     "g := (a: int, b: int, x: float, s: string, t: bool) { a + b; a - b; a * b; a / b; a % b; a ** b; a << b; a >> b; a & b; a | b; a ^ b; a < b; -a; !a; !t; x + x; s + s; [a] + [b]; t && t; t || t; a == b; a != b }",
     // EMPTY_STRUCT_TYPE (field access), mut, slicing, tuple access
     "s := struct{a := 1, b := 2.5}; s.a; m := mut 1; m += 1; *m; [1, 2, 3][0:2]; (1, 2).0; x := mut [1]; x += [2]",
-    "if y: int = 5 { y } else { 0 }; match 5 { z: int => z, }",
+    "if y: int = 5 { y } else { 0 }; match 5 { z: int => z, }; k := 5; match k { 1, 5 => 1, => 0, }",
 ];
 
 pub fn warm_up_here() {
@@ -33,6 +33,14 @@ pub fn warm_up_here() {
     let _ = "[1, 2.5]".parse::<simplesl::variable::Variable>();
 }
 
+static CURRENT: std::sync::atomic::AtomicU64 = std::sync::atomic::AtomicU64::new(0);
+
+/// The boot seed this process was booted with (0 before `boot`).
+pub fn current() -> u64 {
+    CURRENT.load(std::sync::atomic::Ordering::Relaxed)
+}
+
 pub fn boot(boot_seed: u64) {
+    CURRENT.store(boot_seed, std::sync::atomic::Ordering::Relaxed);
     on_fresh_thread(derive(boot_seed, "boot-keys"), warm_up_here).expect("boot warm-up panicked");
 }
